@@ -2,7 +2,7 @@ SPECIFICATION MCSpec
 CONSTANTS
   NV = 3
   MaxEv = 1
-  MaxQ = 2
+  MaxQ = 1
   WeightKind = 1
   ClearCacheOnSetWeight = TRUE
   EvidenceCheckOld = TRUE
